@@ -475,3 +475,11 @@ impl Shared {
         Arc::clone(&self.assume_valid_target_specified)
     }
 }
+
+#[cfg(feature = "verif-hooks")]
+impl Shared {
+    /// Runs one pass of the (otherwise timer driven, private) freezer synchronously.
+    pub fn verif_freeze_once(&self) -> Result<(), Error> {
+        self.freeze()
+    }
+}
